@@ -11,12 +11,14 @@ from .core import SInt, SBool, SEnum, Unsupported, branch, mkint, mkbool, _zi
 
 class SChar:
     """one decimal digit with symbolic value 0..9 (z3 Int term) in a concrete script (base = code point of its zero)"""
-    __slots__ = ("z", "base", "src")
+    __slots__ = ("z", "base", "src", "conv")
 
-    def __init__(self, z, base=48, src=None):
+    def __init__(self, z, base=48, src=None, conv=frozenset()):
         self.z = z
         self.base = base
         self.src = src   # (field term, index, width): this digit is digit `index` of a `width`-digit rendering of term
+        # values already transliterated to ASCII by a glyph-by-glyph str.replace chain that is still in progress
+        self.conv = conv
 
     def __repr__(self):
         return "<%s>" % self.z
@@ -113,6 +115,8 @@ class TStr:
         o = coerce(o)
         if o is None or len(o) != len(self):
             return False
+        if any(isinstance(i, SChar) and i.conv for i in self.items + o.items):
+            raise Unsupported("comparison of a partially transliterated digit")
         conds = []
         for a, b in zip(self.items, o.items):
             if isinstance(a, str) and isinstance(b, str):
@@ -256,6 +260,25 @@ class TStr:
 
     def replace(self, old, new, count=-1):
         old, new = coerce(old), coerce(new)
+        # glyph-by-glyph transliteration of a digit script (e.g. ten calls '۳' -> '3'): a symbolic digit of that script
+        # collects the converted values and becomes an ASCII digit once all ten have been applied (no case split)
+        if len(old) == 1 and len(new) == 1 and isinstance(old.items[0], str) and isinstance(new.items[0], str) and count == -1:
+            ob = digit_base(old.items[0])
+            if ob is not None and ob != 48 and new.items[0].isascii() and new.items[0].isdigit() \
+                    and int(new.items[0]) == ord(old.items[0]) - ob:
+                k = int(new.items[0])
+                items = []
+                for it in self.items:
+                    if isinstance(it, SChar) and it.base == ob:
+                        cv = it.conv | {k}
+                        items.append(SChar(it.z, 48, it.src) if len(cv) == 10 else SChar(it.z, it.base, it.src, cv))
+                    elif it == old.items[0]:
+                        items.append(new.items[0])
+                    else:
+                        items.append(it)
+                return wrap(TStr(items))
+        if any(isinstance(i, SChar) and i.conv for i in self.items):
+            raise Unsupported("operation on a partially transliterated digit")
         out, i, n = [], 0, len(old)
         if n == 0:
             raise Unsupported("replace empty")
